@@ -292,11 +292,11 @@ CHECKS["C08"] = {
             "release by destruction / unlock() / move-construction with the moved-from handle destroyed first or last / move-assignment over a "
             "handle holding another wrapper's lock / move-assignment to itself) on guarded, guarded_opt(on/off), shared_guarded, shared_guarded_opt(on/off), ordered_guarded, "
             "deferred_guarded x 4 mutex types, plus guarded / guarded_opt over recursive_mutex and recursive_timed_mutex with a nested acquisition by the owner; durations include zero and negative ones, deadlines are steady_clock or system_clock time points. The shim's per-thread shadow lock set decides: bool(handle) == (one more lock held), released exactly "
-            "once and only by the owning handle, null after unlock(), nothing held at quiescence, a further try-acquisition succeeds; disabled "
+            "once and only by the owning handle, null after unlock() and after being moved from, nothing held at quiescence, a further try-acquisition succeeds; disabled "
             "mode: non-null, zero mutex operations; a try / timed form never waits untimed for the lock that handles hold and never asks the mutex for "
             "a longer time-out than the caller gave (shim counters, no wall clock). Non-trivial: some attempt failed (null "
             "handle), or disabled mode, or a solo round (try on a free lock must succeed); distinct = (program, schedule, outcome counts).",
-    "assumptions": ["a moved-from handle may still test true (not forbidden by the property, not judged)", "spurious try_lock failure is judged only in single-threaded rounds"],
+    "assumptions": ["spurious try_lock failure is judged only in single-threaded rounds"],
     "runs": [
         {"variant": "plain", "engine": "serial", "procs": 6, "rounds_quick": 6000, "rounds_thorough": 120000},
         {"variant": "plain", "engine": "stress", "procs": 4, "rounds_quick": 3000, "rounds_thorough": 60000},
